@@ -609,7 +609,18 @@ var flatProps = map[string]*flatProp{
 func flatCatalogues(c *Ctx) (singles, pairs []gen.Feature) {
 	three := []string{"pet", "pet owner", "a/b"}
 	sweepHolders := map[string]bool{"defBody": true, "prop": true, "opBody": true}
-	named := func(ct gen.Content) bool { return ct.Class == "ref-local" || ct.Class == "ref-aux" }
+	// contents instantiated with a name of the alphabet: refLocal[n], refAux[n], defWithInline[n], selfRecursiveAuxNamed[n], pointerToNamedProperty[n,...]
+	named := func(ct gen.Content) bool {
+		for _, n := range gen.Sigma {
+			if n == "pet" || n == "pet owner" || n == "a/b" {
+				continue
+			}
+			if strings.Contains(ct.Label, "["+n+"]") || strings.Contains(ct.Label, "["+n+",") {
+				return true
+			}
+		}
+		return false
+	}
 	if c.Thorough() {
 		// singles: every holder x every content with every name of the alphabet + all other features
 		singles = append(gen.Catalogue(gen.Sigma, nil, nil), gen.OtherFeatures(gen.Sigma)...)
